@@ -40,7 +40,7 @@ def load_known():
 def script_cfg(script):
     t = script[0].split()
     return dict(kind=t[1], cap=int(t[2]), ts=int(t[3]), mlf=int(t[4]), ttl=int(t[5]), tick=int(t[6]), rnum=int(t[7]),
-                rsh=int(t[8]), fl=int(t[9]), keys=int(t[10]))
+                rsh=int(t[8]), fl=int(t[9]), keys=int(t[10]), us=int(t[11]) if len(t) > 11 else 250)
 
 
 def match_known(prop, script, failing_event):
@@ -252,6 +252,11 @@ def check_seq(prop, tier):
         prof.extra_keys = list(prof.extra_keys) + [4]
         prof.nops = (prof.nops[0], prof.nops[1] * 2)
     execs = [gen_execution(rng, kinds[i % len(kinds)], prof) for i in range(n)]
+    # one in eight executions of a time-dependent container runs on the coarse clock: the same
+    # history with ttls of weeks to years (deadline arithmetic beyond 2^31 ms)
+    for i, e in enumerate(execs):
+        if e[0].split()[1] in vlib.TTL_KINDS + ["lfuda"] and rng.random() < 0.125:
+            execs[i] = vlib.coarsen(e)
     extra_cov = {}
     viol, known = [], []
     infra = None
